@@ -122,7 +122,9 @@ pub fn eval(case: &J) -> Outcome {
     for h in handles { match h.join() { Ok(r) => again("concurrent", r, &mut out), Err(_) => out.fail(&format!("C16/determ/outcome-differs/concurrent/{cls}"), format!("{sql}: thread died")) } }
     // fixpoint: compile the rendered text
     // (when the rendering itself declares one CTE name twice with different bodies, everything downstream is the known name collision)
-    let cls = if crate::s_dialect::duplicate_cte_class(&t1) == "cte-name-collision" { "cte-name-collision" } else { cls };
+    // `x IS TRUE` / `x IS FALSE`: the reader wraps x in a cast to boolean every time the text is read, so each render + compile adds a cast
+    // (and the second cast makes the declared type optional): the recorded is-bool-cast finding, named by its cause
+    let cls = if crate::s_dialect::duplicate_cte_class(&t1) == "cte-name-collision" { "cte-name-collision" } else if sql.contains(" IS TRUE") || sql.contains(" IS FALSE") { "is-bool-cast" } else { cls };
     let sig1 = schema_sig(&r1);
     let r4 = match compile(&t1) {
         Ok(Ok(r)) => r,
@@ -133,7 +135,7 @@ pub fn eval(case: &J) -> Outcome {
     if sig1.iter().map(|x| &x.0).collect::<Vec<_>>() != sig4.iter().map(|x| &x.0).collect::<Vec<_>>() { out.fail(&format!("C16/determ/fixpoint-names-differ/{cls}"), format!("{sql}: output columns {:?} become {:?} after render + compile", sig1.iter().map(|x| &x.0).collect::<Vec<_>>(), sig4.iter().map(|x| &x.0).collect::<Vec<_>>())); return out; }
     if sig1 != sig4 { let d = sig1.iter().zip(sig4.iter()).find(|(a, b)| a != b).unwrap(); out.fail(&format!("C16/determ/fixpoint-types-differ/{}", if same_modulo_type_structure(&r1, &r4) { "type-structure" } else { cls }), format!("{sql}: column `{}` has type {} but {} after render + compile", d.0 .0, d.0 .1, d.1 .1)); }
     let t4 = render(&r4);
-    match compile(&t4) { Ok(Ok(r5)) => { if schema_sig(&r5) != sig4 { out.fail(&format!("C16/determ/second-fixpoint-schema-differs/{}", if same_modulo_type_structure(&r4, &r5) { "type-structure" } else { cls }), format!("{sql}: schema changes at the second render + compile")); } }
+    match compile(&t4) { Ok(Ok(r5)) => { if schema_sig(&r5) != sig4 { out.fail(&format!("C16/determ/second-fixpoint-schema-differs/{}", if same_modulo_type_structure(&r4, &r5) { "type-structure" } else if crate::s_dialect::duplicate_cte_class(&t4) == "cte-name-collision" { "cte-name-collision" } else { cls }), format!("{sql}: schema changes at the second render + compile")); } }
         _ => { let dc = crate::s_dialect::duplicate_cte_class(&t4); out.fail(&format!("C16/determ/rendered-not-readable/second/{}", if dc != "duplicate-cte-unclassified" { dc } else { cls }), format!("{sql}: second rendering {t4} is not readable")) } }
     // semantics: r1 and r4 return the same rows
     let mut rng = Rng::new(case["data_seed"].as_u64().unwrap());
